@@ -9,8 +9,15 @@
 //!         "whole_items" / "slice_items" (one outcome per row read through `Deserializer::get(i)` and
 //!         `deserialize_any`; [{"ctor":outcome}] if the constructor fails), "oracle_whole" / "oracle_slice"
 //!         (arrow-rs accessors only; null for arrow2), "window" (absolute [o,l] of the final slice),
-//!         "direct_equal" (slice_items == whole_items[o..o+l]); "build_err" instead of all of these if the
-//!         column could not be built (a harness problem, never expected).
+//!         "direct_equal" (slice_items == whole_items[o..o+l]); "typed_ty" (the record target a user would
+//!         naturally write for the column: `struct R { <name>: T }`, wiregen::natural_target), "whole_typed" /
+//!         "slice_typed" (one outcome per row read through `get(i)` into that target), "whole_typed_bulk" /
+//!         "slice_typed_bulk" (`Vec<R>::deserialize(deserializer)`, the `from_arrow` / `from_record_batch` path);
+//!         "strict_ty" (the same target with every `Option` layer removed, addressed as a one-element tuple:
+//!         reads of rows with a null anywhere FAIL) with "whole_strict", "slice_strict", "whole_strict_bulk",
+//!         "slice_strict_bulk";
+//!         "build_err" instead of all of these if the column could not be built (a harness problem, never
+//!         expected).
 use crate::arrowsrc;
 use crate::dump::view_to_json;
 use crate::dynde::Target;
@@ -253,12 +260,30 @@ fn view_or_err<'a, E: std::fmt::Display>(f: impl FnOnce() -> Result<marrow::view
     }
 }
 
-fn read_items(de: &serde_arrow::Deserializer<'_>, len: usize) -> Vec<Value> {
-    let any = json!("any");
-    (0..len).map(|i| outcome::run(|| Target(&any).deserialize(de.get(i).expect("Deserializer::get(i) for i < len")))).collect()
+fn read_items(de: &serde_arrow::Deserializer<'_>, len: usize, ty: &Value) -> Vec<Value> {
+    (0..len).map(|i| outcome::run(|| Target(ty).deserialize(de.get(i).expect("Deserializer::get(i) for i < len")))).collect()
 }
 
-fn items_arrow(field: &arrow_schema::FieldRef, arr: &arrow_array::ArrayRef) -> Vec<Value> {
+/// the record target a user would naturally write for the one-column batch: `struct R { <name>: T }`
+fn typed_target(fieldj: &Value) -> Value {
+    json!({"struct": [[fieldj["name"], crate::wiregen::natural_target(fieldj)]]})
+}
+
+/// the natural target without any `Option` layer, addressed as `(T,)`: null rows make the read fail
+fn strict_target(fieldj: &Value) -> Value {
+    fn strip_all(ty: &Value) -> Value {
+        match ty {
+            Value::Object(m) if m.contains_key("option") => strip_all(&m["option"]),
+            Value::Object(m) => Value::Object(m.iter().map(|(k, v)| (k.clone(), strip_all(v))).collect()),
+            Value::Array(a) => Value::Array(a.iter().map(strip_all).collect()),
+            v => v.clone(),
+        }
+    }
+    json!({"tuple": [strip_all(&crate::wiregen::natural_target(fieldj))]})
+}
+
+/// item-wise reads of every row into the record target `ty` (`"any"`: `deserialize_any`)
+fn items_arrow(field: &arrow_schema::FieldRef, arr: &arrow_array::ArrayRef, ty: &Value) -> Vec<Value> {
     let fields = [field.clone()];
     let arrays = [arr.clone()];
     let mut slot = None;
@@ -269,12 +294,23 @@ fn items_arrow(field: &arrow_schema::FieldRef, arr: &arrow_array::ArrayRef) -> V
         Ok::<Value, serde_arrow::Error>(json!(n))
     });
     match slot {
-        Some(de) => read_items(&de, arrays[0].len()),
+        Some(de) => read_items(&de, arrays[0].len(), ty),
         None => vec![json!({ "ctor": ctor })],
     }
 }
 
-fn items_arrow2(field: &arrow2::datatypes::Field, arr: &Box<dyn arrow2::array::Array>) -> Vec<Value> {
+/// `Vec<R>::deserialize(Deserializer::from_arrow(..))`: the bulk path of `from_arrow` / `from_record_batch`
+fn bulk_arrow(field: &arrow_schema::FieldRef, arr: &arrow_array::ArrayRef, ty: &Value) -> Value {
+    let fields = [field.clone()];
+    let arrays = [arr.clone()];
+    let seq = json!({ "seq": ty });
+    outcome::run(|| {
+        let de = serde_arrow::Deserializer::from_arrow(&fields, &arrays)?;
+        Target(&seq).deserialize(de)
+    })
+}
+
+fn items_arrow2(field: &arrow2::datatypes::Field, arr: &Box<dyn arrow2::array::Array>, ty: &Value) -> Vec<Value> {
     let fields = [field.clone()];
     let arrays = [arr.clone()];
     let mut slot = None;
@@ -285,9 +321,19 @@ fn items_arrow2(field: &arrow2::datatypes::Field, arr: &Box<dyn arrow2::array::A
         Ok::<Value, serde_arrow::Error>(json!(n))
     });
     match slot {
-        Some(de) => read_items(&de, arrays[0].len()),
+        Some(de) => read_items(&de, arrays[0].len(), ty),
         None => vec![json!({ "ctor": ctor })],
     }
+}
+
+fn bulk_arrow2(field: &arrow2::datatypes::Field, arr: &Box<dyn arrow2::array::Array>, ty: &Value) -> Value {
+    let fields = [field.clone()];
+    let arrays = [arr.clone()];
+    let seq = json!({ "seq": ty });
+    outcome::run(|| {
+        let de = serde_arrow::Deserializer::from_arrow2(&fields, &arrays)?;
+        Target(&seq).deserialize(de)
+    })
 }
 
 fn windows_of(input: &Value) -> Vec<(usize, usize)> {
@@ -307,6 +353,16 @@ struct Results {
     slice_views: Vec<Value>,
     whole_items: Vec<Value>,
     slice_items: Vec<Value>,
+    typed_ty: Value,
+    whole_typed: Vec<Value>,
+    slice_typed: Vec<Value>,
+    whole_bulk: Value,
+    slice_bulk: Value,
+    strict_ty: Value,
+    whole_strict: Vec<Value>,
+    slice_strict: Vec<Value>,
+    whole_strict_bulk: Value,
+    slice_strict_bulk: Value,
     oracle_whole: Value,
     oracle_slice: Value,
 }
@@ -343,13 +399,41 @@ fn exec_arrow(input: &Value) -> Result<Results, String> {
 
     let whole_view = view_or_err(|| marrow::view::View::try_from(whole.as_ref()));
     let slice_views = chain.iter().map(|a| view_or_err(|| marrow::view::View::try_from(a.as_ref()))).collect();
-    let whole_items = items_arrow(&field, &whole);
-    let slice_items = items_arrow(&field, &last);
+    let any = json!("any");
+    let typed_ty = typed_target(fieldj);
+    let whole_items = items_arrow(&field, &whole, &any);
+    let slice_items = items_arrow(&field, &last, &any);
+    let whole_typed = items_arrow(&field, &whole, &typed_ty);
+    let slice_typed = items_arrow(&field, &last, &typed_ty);
+    let whole_bulk = bulk_arrow(&field, &whole, &typed_ty);
+    let slice_bulk = bulk_arrow(&field, &last, &typed_ty);
+    let strict_ty = strict_target(fieldj);
+    let whole_strict = items_arrow(&field, &whole, &strict_ty);
+    let slice_strict = items_arrow(&field, &last, &strict_ty);
+    let whole_strict_bulk = bulk_arrow(&field, &whole, &strict_ty);
+    let slice_strict_bulk = bulk_arrow(&field, &last, &strict_ty);
     let oracle = |a: &ArrayRef| match guarded(|| Ok(arrowsrc::arrow_oracle(a.as_ref()))) {
         Ok(v) => Value::Array(v),
         Err(e) => json!({ "err": e }),
     };
-    Ok(Results { whole_view, slice_views, whole_items, slice_items, oracle_whole: oracle(&whole), oracle_slice: oracle(&last) })
+    Ok(Results {
+        whole_view,
+        slice_views,
+        whole_items,
+        slice_items,
+        typed_ty,
+        whole_typed,
+        slice_typed,
+        whole_bulk,
+        slice_bulk,
+        strict_ty,
+        whole_strict,
+        slice_strict,
+        whole_strict_bulk,
+        slice_strict_bulk,
+        oracle_whole: oracle(&whole),
+        oracle_slice: oracle(&last),
+    })
 }
 
 fn exec_arrow2(input: &Value) -> Result<Results, String> {
@@ -371,9 +455,37 @@ fn exec_arrow2(input: &Value) -> Result<Results, String> {
     let last = chain.last().cloned().unwrap_or_else(|| whole.clone());
     let whole_view = view_or_err(|| marrow::view::View::try_from(whole.as_ref()));
     let slice_views = chain.iter().map(|a| view_or_err(|| marrow::view::View::try_from(a.as_ref()))).collect();
-    let whole_items = items_arrow2(&field, &whole);
-    let slice_items = items_arrow2(&field, &last);
-    Ok(Results { whole_view, slice_views, whole_items, slice_items, oracle_whole: Value::Null, oracle_slice: Value::Null })
+    let any = json!("any");
+    let typed_ty = typed_target(fieldj);
+    let whole_items = items_arrow2(&field, &whole, &any);
+    let slice_items = items_arrow2(&field, &last, &any);
+    let whole_typed = items_arrow2(&field, &whole, &typed_ty);
+    let slice_typed = items_arrow2(&field, &last, &typed_ty);
+    let whole_bulk = bulk_arrow2(&field, &whole, &typed_ty);
+    let slice_bulk = bulk_arrow2(&field, &last, &typed_ty);
+    let strict_ty = strict_target(fieldj);
+    let whole_strict = items_arrow2(&field, &whole, &strict_ty);
+    let slice_strict = items_arrow2(&field, &last, &strict_ty);
+    let whole_strict_bulk = bulk_arrow2(&field, &whole, &strict_ty);
+    let slice_strict_bulk = bulk_arrow2(&field, &last, &strict_ty);
+    Ok(Results {
+        whole_view,
+        slice_views,
+        whole_items,
+        slice_items,
+        typed_ty,
+        whole_typed,
+        slice_typed,
+        whole_bulk,
+        slice_bulk,
+        strict_ty,
+        whole_strict,
+        slice_strict,
+        whole_strict_bulk,
+        slice_strict_bulk,
+        oracle_whole: Value::Null,
+        oracle_slice: Value::Null,
+    })
 }
 
 pub fn exec(input: &Value) -> Value {
@@ -403,6 +515,16 @@ pub fn exec(input: &Value) -> Value {
             obj.insert("slice_views".into(), Value::Array(r.slice_views));
             obj.insert("whole_items".into(), Value::Array(r.whole_items));
             obj.insert("slice_items".into(), Value::Array(r.slice_items));
+            obj.insert("typed_ty".into(), r.typed_ty);
+            obj.insert("whole_typed".into(), Value::Array(r.whole_typed));
+            obj.insert("slice_typed".into(), Value::Array(r.slice_typed));
+            obj.insert("whole_typed_bulk".into(), r.whole_bulk);
+            obj.insert("slice_typed_bulk".into(), r.slice_bulk);
+            obj.insert("strict_ty".into(), r.strict_ty);
+            obj.insert("whole_strict".into(), Value::Array(r.whole_strict));
+            obj.insert("slice_strict".into(), Value::Array(r.slice_strict));
+            obj.insert("whole_strict_bulk".into(), r.whole_strict_bulk);
+            obj.insert("slice_strict_bulk".into(), r.slice_strict_bulk);
             obj.insert("oracle_whole".into(), r.oracle_whole);
             obj.insert("oracle_slice".into(), r.oracle_slice);
             obj.insert("direct_equal".into(), json!(eq));
